@@ -777,14 +777,11 @@ func Load(repo string, patterns []string) (*Loaded, error) {
 	counter := 0
 	overlay := map[string][]byte{}
 	base := map[string]string{}
-	hasPrelude := map[string]bool{}
+	_ = ghostPrelude
 	for _, f := range files {
 		s := string(srcs[f])
 		dir := filepath.Dir(f)
-		if !hasPrelude[dir] {
-			s += ghostPrelude
-			hasPrelude[dir] = true
-		}
+		_ = dir
 		s += synthesize(perFile[f], &counter)
 		base[f] = s
 		overlay[f] = []byte(s)
